@@ -440,7 +440,7 @@ def lattice_points(ctx):
             pts.append(dict(base, **p))
     # geometry variants of the estimate: mirrored copy, both far from the
     # origin, the reference file given twice
-    g = [("geometry", ["m", "f", "same", "b"]), ("relation", DIMS[0][1]),
+    g = [("geometry", ["m", "f", "same", "b", "nonl", "crlf"]), ("relation", DIMS[0][1]),
          ("delta", [("f", 1), ("m", 1.5), ("d", 37.0)]),
          ("all_pairs", [False, True]), ("align", ["none", "as", "origin"]),
          ("project", [None, "xy"])]
